@@ -201,8 +201,8 @@ def rule_retention(ctx: Ctx, cls: str = POLY) -> None:
                             "retain",
                             anchor,
                             construct,
-                            "terms with membership {%s} are in neither the result's guarantees nor its assumptions; "
-                            "G_res = %s (entry %s, path %s)" % (r["lost"], r["g_res"], fkey, path_label(p)),
+                            ("%s; " % r["lost"] if r["class"].startswith("no variable") else "terms with membership {%s} are in neither the result's guarantees nor its assumptions; " % r["lost"])
+                            + "G_res = %s (entry %s, path %s)" % (r["g_res"], fkey, path_label(p)),
                             {"events": _events(p)},
                             where=prog.func(anchor).where,
                         )
